@@ -19,6 +19,7 @@ CLAUSES = {
     "21": "Pending() differs from the number of operations in flight (deferred ops + armed timers + queued posts)",
     "22": "PollOne dispatched handlers but reported a non-positive count",
     "23": "PollOne reported 0 without the timeout error",
+    "24": "an untimed wait that signals interrupted reported an error, or returned while an operation was still in flight",
     "30": "posted handlers ran out of order",
     "31": "a queued post was not run by the poll that drained the wake-up descriptor",
     "panic": "call panicked",
@@ -343,6 +344,10 @@ def batch_cases():
     for who, prog in ((10, "cancel 0"), (10, "close 0"), (20, "cancel 0"), (10, "start write 0 4 21"), (20, "start read 0 4 11")):
         cases.append(("case", setup(["sock"]) + ["prog %d %s" % (who, prog), "peer 0 fill", "start read 0 4 10", "start write 0 4 20", "peer 0 data 4",
                                                  "peer 0 drain 0", "pollone", "pollone", "cancel 0", "close 0"]))
+    # descriptor number re-used inside one poll batch behind a hung-up, closed object (run by the driver as a whole)
+    cases.append(("case", ["scenario hupreuse", "scenario hupreuse"]))
+    # signals interrupting an untimed wait again and again
+    cases.append(("case", ["scenario eintr"]))
     # nothing ready: timeout, not success
     cases.append(("case", setup(["sock"]) + ["pollone", "start read 0 4 10", "pollone", "cancel 0", "pollone"]))
     return cases
